@@ -82,6 +82,14 @@ theorem axis_spacing (a : Axis K) (j : Nat) :
     (a.o + ((j + 1 : Nat) : K) * a.sp) - (a.o + (j : K) * a.sp) = a.sp := by
   push_cast; ring
 
+/-- cropping re-labels nothing: sample `(i, j)` of a resliced coordinate array carries the coordinate that sample
+    `(i + first row, j + first column)` carried before (so data and coordinates are cut by the same window) -/
+theorem reslice_keeps_labels (env : Env K) (k : Nat) (a : Axis K) (i j : Nat) :
+    (resliceAxis env .x k a).o + (j : K) * (resliceAxis env .x k a).sp = a.o + ((j + (env.off k).2 : Nat) : K) * a.sp ∧
+    (resliceAxis env .y k a).o + (i : K) * (resliceAxis env .y k a).sp = a.o + ((i + (env.off k).1 : Nat) : K) * a.sp := by
+  constructor <;> simp only [resliceAxis] <;>
+    (show a.o + ((_ : Int) : K) * a.sp + _ = _) <;> simp only [Int.cast_natCast] <;> push_cast <;> ring
+
 /-- `recenter` does what it says: after `c -= c[shape // 2]` the sample at the centre index is exactly zero
     (`x`: column `cols // 2`; `y`: row `rows // 2`), and the spacing is untouched -/
 theorem recenter_zero_at_centre (s : State K) (a : Axis K) :
